@@ -404,6 +404,7 @@ type csObs struct {
 	Seen   []byte
 	Out    []byte // what the wrapped handler wrote
 	Resp   []byte // what the client received
+	Panic  *panicInfo
 }
 
 func newServerRequest(method, target string, body []byte, chunked bool) (*http.Request, error) {
@@ -434,12 +435,12 @@ func reverseBytes(b []byte) []byte {
 
 func serveCS(mw func(http.Handler) http.Handler, w csWire) (csObs, error) {
 	var obs csObs
-	h := mw(http.HandlerFunc(func(rw http.ResponseWriter, r *http.Request) {
+	inner := http.HandlerFunc(func(rw http.ResponseWriter, r *http.Request) {
 		obs.Ran++
 		obs.Seen, _ = io.ReadAll(r.Body)
 		obs.Out = append([]byte("ok:"), reverseBytes(obs.Seen)...)
 		rw.Write(obs.Out)
-	}))
+	})
 	req, err := newServerRequest(w.Method, w.Target, w.Body, w.Chunked)
 	if err != nil {
 		return obs, err
@@ -451,7 +452,7 @@ func serveCS(mw func(http.Handler) http.Handler, w csWire) (csObs, error) {
 		req.Header.Set("X-Request-Uri", *w.XUri)
 	}
 	rec := httptest.NewRecorder()
-	h.ServeHTTP(rec, req)
+	obs.Panic = guard(func() { mw(inner).ServeHTTP(rec, req) })
 	obs.Status = rec.Code
 	obs.Resp = rec.Body.Bytes()
 	return obs, nil
@@ -467,7 +468,10 @@ func isFourMethods(m string) bool {
 // compares with the oracle.
 func checkCS(c csCase, memo *rsaMemo) (*pending, csExpect, csObs) {
 	tol := time.Duration(c.Base.TolMs) * time.Millisecond
-	mw := handler.ContentSecurityHandler(csDecrypters, tol, true)
+	var mw func(http.Handler) http.Handler
+	if pi := guard(func() { mw = handler.ContentSecurityHandler(csDecrypters, tol, true) }); pi != nil {
+		return panicPending(pi, "constructing ContentSecurityHandler", replayCase{Family: "cs", CS: &c}), csExpect{}, csObs{}
+	}
 	var w csWire
 	var obs csObs
 	var now int64
@@ -491,6 +495,9 @@ func checkCS(c csCase, memo *rsaMemo) (*pending, csExpect, csObs) {
 		cc := c
 		return &pending{Class: class, Desc: fmt.Sprintf("%s [%s] expected %s(%s), observed ran=%d status=%d", msg, c.String(), verdictName(exp.Verdict), exp.Reason, obs.Ran, obs.Status),
 			Replay: replayCase{Family: "cs", CS: &cc}}, exp, obs
+	}
+	if obs.Panic != nil {
+		return fail(obs.Panic.Class, "the content-security middleware panicked: "+obs.Panic.Msg)
 	}
 	if obs.Ran > 1 {
 		return fail("cs-handler-ran-twice", "handler called more than once")
